@@ -49,7 +49,28 @@ def spec_for(index, seed=0):
         others = [s for s in SPECIES if s != var]
         f = rng.choice(["kg * {a}", "{a} + {b}", "kg * {a} / (1 + {b})", "2 * {a} + kg"]).format(a=rng.choice(others), b=rng.choice(others))
         rules.append(dict(kind=kind, var=var, formula=f))
-    return dict(species=sp, globals=glob, reactions=rxs, rules=rules, index=index, seed=seed)
+    # a species may carry BOTH attributes (libsbml's setters drop the other one, its reader keeps both: write_document puts the second
+    # attribute into the text); drawn from a separate stream so that the documents above stay as they were
+    rng2 = random.Random(104729 * (seed + 1) + index)
+    for s in SPECIES:
+        if rng2.random() < 0.4:
+            sp[s]["mode"] = rng2.choice(["both", "both", "both_zero_amount"])
+    hosu = rng2.choice([False, False, True])
+    return dict(species=sp, globals=glob, reactions=rxs, rules=rules, index=index, seed=seed, hosu=hosu)
+
+
+def write_document(spec, path):
+    """the document as a file; species in a 'both' mode get initialAmount next to their initialConcentration"""
+    import re
+    import libsbml as L
+    text = L.writeSBMLToString(build_document(spec))
+    for s, d in spec["species"].items():
+        if d["mode"] in ("both", "both_zero_amount"):
+            amt = d["amount"] if d["mode"] == "both" else 0.0
+            text, n = re.subn(r'(<species\b[^>]*\bid="%s"[^>]*?)(\s*/?>)' % re.escape(s), lambda m_: '%s initialAmount="%r"%s' % (m_.group(1), amt, m_.group(2)), text, count=1)
+            assert n == 1 and "initialConcentration" in text
+    with open(path, "w") as f:
+        f.write(text)
 
 
 def build_document(spec):
@@ -68,8 +89,10 @@ def build_document(spec):
         sp.setCompartment("cell")
         sp.setConstant(False)
         sp.setBoundaryCondition(False)
-        sp.setHasOnlySubstanceUnits(False)
-        if d["mode"] == "amount":
+        sp.setHasOnlySubstanceUnits(bool(spec.get("hosu", False)))
+        if d["mode"] in ("both", "both_zero_amount"):
+            sp.setInitialConcentration(d["conc"])
+        elif d["mode"] == "amount":
             sp.setInitialAmount(d["amount"])
         elif d["mode"] == "zero_amount":
             sp.setInitialAmount(0.0)
@@ -128,9 +151,9 @@ def _names(ast, out):
 def initial_values(spec):
     out = {}
     for s, d in spec["species"].items():
-        if d["mode"] == "amount":
+        if d["mode"] in ("amount", "both"):                  # a non-zero initial amount takes precedence over the concentration
             out[s] = d["amount"]
-        elif d["mode"] == "conc":
+        elif d["mode"] in ("conc", "both_zero_amount"):
             out[s] = d["conc"]
         else:
             out[s] = 0.0
